@@ -137,7 +137,7 @@ theorem subtract_spec (sup : Net) (hsup : Good sup) (sub : Net) (rest : List Net
     (hasc : Asc (sub :: rest)) (hin : netIn sub sup = true) :
     ∃ pre new rest', subtract sup (sub :: rest) ranges = (rest', ranges ++ new) ∧
       sub :: rest = pre ++ rest' ∧ rest'.length ≤ rest.length ∧
-      (∀ c ∈ rest', H sup < L c) ∧
+      (∀ c ∈ rest', H sup < L c) ∧ (∀ x, nden pre x → L sup ≤ x ∧ x ≤ H sup) ∧
       (∀ r ∈ new, VROK r ∧ L sup ≤ r.L ∧ r.H ≤ H sup) ∧ new.Pairwise (fun r r' => r.H < r'.L) ∧
       ∀ x, rden new x ↔ (L sup ≤ x ∧ x ≤ H sup ∧ ¬ nden pre x) := by
   obtain ⟨pre1, new1, rest', prev', e, hsplit, hpre, hhead, hg', hin', hle, hrest, hpreH, hnew, hpw, hden⟩ :=
@@ -211,9 +211,20 @@ theorem subtract_spec (sup : Net) (hsup : Good sup) (sub : Net) (rest : List Net
   refine ⟨sub :: pre1,
     (if sub.first > sup.first then [(sup.ver, sup.first, sub.first - 1)] else []) ++ new1 ++
       (if prev'.last + 1 ≤ sup.last then [(sup.ver, prev'.last + 1, sup.last)] else []),
-    rest', ?_, by rw [hsplit]; rfl, hlen, habove, ?_, ?_, fun x => ?_⟩
+    rest', ?_, by rw [hsplit]; rfl, hlen, habove, ?_, ?_, ?_, fun x => ?_⟩
   · by_cases c1 : sub.first > sup.first <;> by_cases c2 : prev'.last + 1 ≤ sup.last <;>
       simp [c1, c2, List.append_assoc]
+  · rintro x ⟨n, hn, q1, q2⟩
+    have hn' : n ∈ sub :: rest := by
+      rcases List.mem_cons.1 hn with rfl | h
+      · simp
+      · rw [hsplit]; exact List.mem_cons_of_mem _ (List.mem_append_left _ h)
+    have hin_n : netIn n sup = true := by
+      rcases List.mem_cons.1 hn with rfl | h
+      · exact hin
+      · exact hpre n h
+    have := (netIn_LH n sup (hasc.1 n hn').1 hsup.1).1 hin_n
+    omega
   · intro r hr
     simp only [List.mem_append] at hr
     rcases hr with (hr | hr) | hr
